@@ -1,6 +1,9 @@
 #![allow(dead_code)]
 mod e1;
+mod e15;
+mod e16;
 mod e2;
+mod e4;
 mod families;
 mod oracle;
 mod plans;
